@@ -4,7 +4,7 @@ import os
 
 VERIF = os.path.dirname(os.path.dirname(os.path.abspath(__file__)))
 
-TRUST = ("Trusted: rustc front end and MIR construction, the factdrv extractor and the abstract evaluator rules/sym.py (exercised on every thorough run by replaying the seeded breaking changes and revert mutants in a scratch copy, and in development by 221 behaviour-preserving patches that must stay silent), frozen specification tables; "
+TRUST = ("Trusted: rustc front end and MIR construction, the factdrv extractor and the abstract evaluator rules/sym.py (exercised on every thorough run by replaying the seeded breaking changes and revert mutants in a scratch copy, and in development by 233 behaviour-preserving patches that must stay silent), frozen specification tables; "
          "dependencies (crypto, roaring, flate2, time, did_url_parser, sd-jwt-payload, serde) are trusted beyond their call protocol. ")
 
 # pid -> (templates/technique, what is decided, residue)
